@@ -394,6 +394,13 @@ pub fn canon(root: &Node) -> String {
   out
 }
 
+/// canonical rendering of one subtree (expression, toplevel, ...)
+pub fn canon_subtree(n: &Node) -> String {
+  let mut out = String::new();
+  canon_node(n, 0, &mut out);
+  out
+}
+
 fn canon_node(n: &Node, depth: usize, out: &mut String) {
   for _ in 0..depth {
     out.push(' ');
@@ -430,4 +437,123 @@ pub fn token_yield(root: &Node, out: &mut Vec<(&'static str, String)>) {
 
 pub fn count_nodes(n: &Node) -> usize {
   1 + n.children.iter().map(count_nodes).sum::<usize>()
+}
+
+/// post-order visit of every expression node of a module (children before parents)
+pub fn for_each_expr<'m, T: Clone>(m: &'m Module<T>, f: &mut dyn FnMut(&'m expr::E<T>)) {
+  for t in &m.toplevels {
+    if let Toplevel::Class(c) = t {
+      for mem in &c.members.members {
+        visit_expr(&mem.body, f);
+      }
+    }
+  }
+}
+
+fn visit_block<'m, T: Clone>(b: &'m expr::Block<T>, f: &mut dyn FnMut(&'m expr::E<T>)) {
+  for st in &b.statements {
+    match st {
+      expr::Statement::Declaration(d) => visit_expr(&d.assigned_expression, f),
+      expr::Statement::Expression(e) => visit_expr(e, f),
+    }
+  }
+  if let Some(e) = &b.expression {
+    visit_expr(e, f);
+  }
+}
+
+fn visit_if<'m, T: Clone>(i: &'m expr::IfElse<T>, f: &mut dyn FnMut(&'m expr::E<T>)) {
+  match i.condition.as_ref() {
+    expr::IfElseCondition::Expression(e) => visit_expr(e, f),
+    expr::IfElseCondition::Guard(_, e) => visit_expr(e, f),
+  }
+  visit_block(&i.e1, f);
+  match i.e2.as_ref() {
+    expr::IfElseOrBlock::IfElse(ie) => visit_if(ie, f),
+    expr::IfElseOrBlock::Block(b) => visit_block(b, f),
+  }
+}
+
+pub fn visit_expr<'m, T: Clone>(e: &'m expr::E<T>, f: &mut dyn FnMut(&'m expr::E<T>)) {
+  use expr::E;
+  match e {
+    E::Literal(..) | E::LocalId(..) | E::ClassId(..) => {}
+    E::Tuple(_, l) => l.expressions.iter().for_each(|x| visit_expr(x, f)),
+    E::FieldAccess(x) => visit_expr(&x.object, f),
+    E::MethodAccess(x) => visit_expr(&x.object, f),
+    E::Unary(u) => visit_expr(&u.argument, f),
+    E::Call(c) => {
+      visit_expr(&c.callee, f);
+      c.arguments.expressions.iter().for_each(|x| visit_expr(x, f));
+    }
+    E::Binary(b) => {
+      visit_expr(&b.e1, f);
+      visit_expr(&b.e2, f);
+    }
+    E::IfElse(i) => visit_if(i, f),
+    E::Match(m) => {
+      visit_expr(&m.matched, f);
+      m.cases.iter().for_each(|c| visit_expr(&c.body, f));
+    }
+    E::Lambda(l) => visit_expr(&l.body, f),
+    E::Block(b) => visit_block(b, f),
+  }
+  f(e);
+}
+
+/// "kind" or "kind(op)" of an expression, atoms collapsed
+pub fn expr_shape<T: Clone>(e: &expr::E<T>) -> String {
+  use expr::E;
+  match e {
+    E::Literal(_, Literal::String(_)) => "string".into(),
+    E::Literal(_, Literal::Int(i)) => if *i < 0 { "negint".into() } else { "atom".into() },
+    E::Literal(..) | E::LocalId(..) | E::ClassId(..) => "atom".into(),
+    E::Tuple(..) => "tuple".into(),
+    E::FieldAccess(_) | E::MethodAccess(_) => "member_access".into(),
+    E::Unary(u) => format!("unary({})", u.operator.kind_str()),
+    E::Call(_) => "call".into(),
+    E::Binary(b) => format!("binary({})", b.operator.kind_str()),
+    E::IfElse(i) => if matches!(i.condition.as_ref(), expr::IfElseCondition::Guard(..)) { "iflet".into() } else { "if".into() },
+    E::Match(_) => "match".into(),
+    E::Lambda(_) => "lambda".into(),
+    E::Block(_) => "block".into(),
+  }
+}
+
+/// shapes of the direct sub-expressions in operand order
+pub fn child_shapes<T: Clone>(e: &expr::E<T>) -> Vec<String> {
+  use expr::E;
+  match e {
+    E::Literal(..) | E::LocalId(..) | E::ClassId(..) => vec![],
+    E::Tuple(_, l) => l.expressions.iter().map(expr_shape).collect(),
+    E::FieldAccess(x) => vec![expr_shape(&x.object)],
+    E::MethodAccess(x) => vec![expr_shape(&x.object)],
+    E::Unary(u) => vec![expr_shape(&u.argument)],
+    E::Call(c) => std::iter::once(expr_shape(&c.callee)).chain(c.arguments.expressions.iter().map(expr_shape)).collect(),
+    E::Binary(b) => vec![expr_shape(&b.e1), expr_shape(&b.e2)],
+    E::IfElse(i) => {
+      let mut v = vec![match i.condition.as_ref() {
+        expr::IfElseCondition::Expression(e) => expr_shape(e),
+        expr::IfElseCondition::Guard(_, e) => expr_shape(e),
+      }];
+      v.push("block".into());
+      v.push(match i.e2.as_ref() { expr::IfElseOrBlock::IfElse(_) => "if".into(), _ => "block".into() });
+      v
+    }
+    E::Match(m) => std::iter::once(expr_shape(&m.matched)).chain(m.cases.iter().map(|c| expr_shape(&c.body))).collect(),
+    E::Lambda(l) => vec![expr_shape(&l.body)],
+    E::Block(b) => {
+      let mut v = vec![];
+      for st in &b.statements {
+        match st {
+          expr::Statement::Declaration(d) => v.push(format!("let:{}", expr_shape(&d.assigned_expression))),
+          expr::Statement::Expression(e) => v.push(format!("stmt:{}", expr_shape(e))),
+        }
+      }
+      if let Some(e) = &b.expression {
+        v.push(format!("value:{}", expr_shape(e)));
+      }
+      v
+    }
+  }
 }
